@@ -49,3 +49,16 @@ package graph
 
 //@ spec bandYOK(g *DGraph, ls float64) bool =
 //@   forall k int, j int :: 0 <= k && k < len(g.Layers) && 0 <= j && j < len(g.Layers[k].Nodes) ==> g.Layers[k].Nodes[j].Y == bandY(g, k, ls)
+
+// ---------------------------------------------------------------------------
+// adjacency vocabulary (phases 1-2)
+
+// every out-edge of every node is a non-nil edge that starts at the node and ends at a non-nil node
+//@ spec outWF() bool =
+//@   forall m *Node, k int :: m != nil && 0 <= k && k < len(m.Out) ==> m.Out[k] != nil && m.Out[k].From == m && m.Out[k].To != nil
+
+// topo: ghost numbering witnessing acyclicity - strictly decreasing along every non-self-loop edge, never negative
+//@ spec topo(n *Node) int
+//@ spec acyclicByTopo() bool =
+//@   (forall m *Node :: topo(m) >= 0)
+//@   && (forall m *Node, k int :: m != nil && 0 <= k && k < len(m.Out) && m.Out[k].To != m ==> topo(m.Out[k].To) < topo(m))
